@@ -135,7 +135,7 @@ def run(rep: Report, prog: Program, tier: str) -> None:
         n_hint += 1
         r = p.exit[1]
         with_jitter = any(a == jitter and pol for a, pol, _ in p.conds)
-        has_rem = any(a == ("cmp", "is", rem, ("const", None)) and not pol for a, pol, _ in p.conds)
+        has_rem = not any(a == ("cmp", "is", rem, ("const", None)) and pol for a, pol, _ in p.conds)
         rep.instance("R20.4", f"hint-edge|jitter={with_jitter}|remaining={has_rem}", {"value": show(r)})
         h = ("pure", "max", (("const", 0.0), ("pure", "float", (hint,), ())), ())
         h2 = ("pure", "max", (("pure", "float", (hint,), ()), ("const", 0.0)), ())
@@ -148,7 +148,7 @@ def run(rep: Report, prog: Program, tier: str) -> None:
             core = r
             if has_rem:
                 if not (core[0] == "pure" and core[1] == "min" and rem in core[2]):
-                    problem = "remaining_s is given but the result is not min(delay, remaining_s)"
+                    problem = "remaining_s may be given on this path but the result is not min(delay, remaining_s)"
                 else:
                     core = core[2][0] if core[2][1] == rem else core[2][1]
             if problem is None:
